@@ -424,7 +424,7 @@ struct DomExec {
     bool copy_str = op.A(2) & 1;
     JVal mv = *src.m; mv.clear_maps();
     dst.n->CopyFrom(*src.n, d.GetAllocator(), copy_str);
-    if ((chk & CHK_LEDGER) && (const void*)dst.n != (const void*)src.n) check_copy_independent(*src.n, *dst.n, copy_str);
+    if ((const void*)dst.n != (const void*)src.n) check_copy_independent(*src.n, *dst.n, copy_str);
     *dst.m = std::move(mv);
     ob = "copy";
     probe("copyfrom");
@@ -819,6 +819,16 @@ struct DomExec {
           else vr = cn.AtPointer(StringView(path[0].key), StringView(path[1].key));
         }
         if (vr != cr) violate("model", site("variadic"), "variadic AtPointer(...) disagrees with AtPointer(JsonPointer)");
+        // the size_t overloads take the full index width: an index whose low 32 (or 31) bits happen to be valid is still out of range
+        if (comparable && cr && !path.empty() && path.back().is_index) {
+          static const size_t far[] = {(size_t)1 << 32, (size_t)1 << 31, (size_t)1 << 63, ~(size_t)0 << 32};
+          size_t big = (size_t)path.back().index + far[(size_t)cur_op % 4];
+          const N* fr = nullptr;
+          if (path.size() == 1) fr = cn.AtPointer(big);
+          else if (path.size() == 2) fr = path[0].is_index ? cn.AtPointer((size_t)path[0].index, big) : cn.AtPointer(StringView(path[0].key), big);
+          if (fr) violate("model", site("variadic_wide_index"), "variadic AtPointer resolved an index of " + std::to_string(big) + " in a container that has no such element");
+          probe("atpointer_index_beyond_32_bits");
+        }
       }
       ob = r ? "ap1" : "ap0"; return true;
     }
